@@ -166,11 +166,25 @@ def gen_pushes(rng, idx):
     return Case(lines, {"kind": "pushes"})
 
 
-def gen_busy(rng, idx):
+BUSY_SHAPES = [  # (span, wall0 offset, cost): the cut-off must need BOTH wall >= end and >= 1024 MIN_TD cycles
+    (1100, 0, 1),        # busy from the start, wall clock keeps pace: runs to end_time, never cut
+    (1100, 0, 0),        # busy, clock frozen before end_time: never cut
+    (1100, 1100, 1),     # wall clock already at end_time: cut after 1024 cycles
+    (1040, 2080, 1),     # far past end_time: cut
+    (1020, 2040, 1),     # past end_time but end reached before 1024 cycles: not cut
+    (1300, 600, 2),      # wall clock passes end_time mid-way
+]
+
+
+def gen_busy(rng, idx, k=None):
     """a node re-scheduling itself every MIN_TD: the drain cut-off past end_time"""
-    span = rng.choice([30, 900, 1020, 1026, 1040, 1100, 1300])
-    wall0 = START + rng.choice([0, span - 5, span, span + 1, 2 * span])
-    cost = rng.choice([0, 1, 1, 3])
+    if k is not None and k < len(BUSY_SHAPES):
+        span, off, cost = BUSY_SHAPES[k]
+        wall0 = START + off
+    else:
+        span = rng.choice([30, 900, 1020, 1026, 1040, 1100, 1300])
+        wall0 = START + rng.choice([0, 0, span - 5, span, span + 1, 2 * span])
+        cost = rng.choice([0, 1, 1, 3])
     lines = ["case %d" % idx, "cfg %d %d %d %d %d" % (START, START + span, 100, wall0, cost)]
     lines.append("node 1 r0 ; r1 L")
     if rng.random() < 0.4:
@@ -186,10 +200,11 @@ def streams(rng, tier, seed):
     q = tier == "quick"
     cases = []
     idx = 0
-    for gen, n in ((gen_general, 420 if q else 12000), (gen_idle, 40 if q else 600), (gen_pushes, 60 if q else 1500),
-                   (gen_busy, 14 if q else 200)):
+    for gen, n in ((gen_general, 420 if q else 12000), (gen_idle, 40 if q else 600), (gen_pushes, 60 if q else 1500)):
         for _ in range(n):
             cases.append(gen(rng, idx)); idx += 1
+    for k in range(14 if q else 200):
+        cases.append(gen_busy(rng, idx, k)); idx += 1
     cdir = os.path.join(os.path.dirname(os.path.dirname(os.path.dirname(os.path.abspath(__file__)))), "corpus", "C17")
     corpus = []
     if os.path.isdir(cdir):
